@@ -16,7 +16,8 @@ CHECKS = {
              "looping, 7-40 steps) run N+M steps in one go | N steps, registers+memory carried into a NEW core, M steps | twice on fresh cores with "
              "every step compared | (Python) the snapshot-driven CPUStepper with a new CPU per step against one Emulator; and on the whole machines "
              "(CoreRuntime::step(k) / PCE500Emulator.run(k), resident programs with interrupts, firmware-raised requests and both timers live) one "
-             "batch of T instructions | T single steps | two-batch splits. The first differing "
+             "batch of T instructions | T single steps | two-batch splits; and a snapshot loaded into a fresh machine | into a machine that has "
+             "already run another program, followed by the same continuation. The first differing "
              "architectural component is named. The fresh Python runs are also judged by JudgeSem (figure in the evidence; disagreements are C04's). "
              "Static complement: the lifted IL of every distinct instruction shape is exported as a control-flow graph and TLC (TempDefUse) explores "
              "every path carrying the set of TEMP registers written so far - DefBeforeUse must hold at every node.",
@@ -45,7 +46,7 @@ CHECKS = {
              "every behaviour of a small recorded model and `-simulate` behaviours (depth 40) are replayed on the real Python "
              "TimerScheduler and the real Rust TimerContext, and those recordings plus seeded random runs with large periods "
              "and cycle origins up to 2^62 are validated step by step by TLC against TraceTimers.tla (FiredIffBoundary, "
-             "NextInFuture, NeverWhenOff, FireSetsIsr); Python and Rust sequences are also compared directly. Machine level: whole "
+             "NextInFuture, NeverWhenOff, FireSetsIsr; the firmware acknowledging status bits between ticks is an action of the traces); Python and Rust sequences are also compared directly. Machine level: whole "
              "machines running with both timers are saved and restored into fresh machines at every script position (the C16 "
              "campaign) and the firing cadence after the restore is compared with the uninterrupted run (snapshot_cadence). "
              "Unbounded: ind/TimersInd.tla states the one-timer argument over mathematical integers and Apalache discharges it - "
@@ -82,7 +83,8 @@ CHECKS = {
              "chip registers, VRAM delta) is validated by TLC against TraceLcd.tla at full 8x64 geometry. PixelMap.tla states "
              "the one-to-one / one-column predicates; the complete pixel map of each implementation (all 8192 VRAM bits probed "
              "through the protocol) is judged by TLC, with both chips on and again with each chip switched off in turn (OwnChipOnly: what the "
-             "chip that is on shows does not depend on the other chip's on/off state).",
+             "chip that is on shows does not depend on the other chip's on/off state); DisplayDetermined: a Python controller that renders after "
+             "every access shows the same picture as a fresh one given the same accesses.",
         design_ref="DESIGN.md section 4 (C15)",
         note="Trusted: TLC, vh harness (lcd.rs), Python driver in checks/c15.py. One known finding (writes at read addresses, Rust vs Python) is listed in known_findings.json.",
         technique="TLA+ spec (Lcd.tla, PixelMap.tla) + TLC exhaustive/simulate + trace validation of both implementations + complete pixel-map enumeration judged by TLC",
@@ -187,7 +189,8 @@ CHECKS = {
              "assembled bytes = CanonEnc of the original), SameText, SameLift (IL digest), SecondRoundAssembles, Stable. Every accepted structural "
              "encoding (prefix x opcode x mode byte x operand palette incl. 00/FF/7F/80 displacements; 42750 quick, all 15 prefixes thorough; "
              "undocumented but accepted forms included) is rendered, turned into source text (TInt/TAddr tokens as 0x literals, named internal "
-             "registers by name), assembled by Assembler().assemble, disassembled and assembled again; TLC judges every record. On the model, "
+             "registers by name), assembled by Assembler().assemble, disassembled and assembled again; TLC judges every record. Encodings that share their operand "
+             "selector byte run in one process and every text is re-assembled in reverse order (a text whose bytes changed is observed and judged again). On the model, "
              "TLC checks over the structural space (MCSemSpace) that the canonical reading is total and depends on the instruction's own bytes only.",
         design_ref="DESIGN.md section 4 (C09)",
         note="Trusted: the text convention of checks/c09.text_of, decode_harness.il_digest, TLC. Eight open known findings, all disagreements between "
